@@ -55,6 +55,10 @@ class Run:
         self.inconclusive(rule, construct, f"the recognised spelling was not found ({what})")
         return False
 
+    def is_known(self, o: Dict[str, Any]) -> bool:
+        entry = load_known().get((self.prop, o["key"]))
+        return entry is not None and entry.get("status") == "known"
+
     def inconclusive(self, rule: str, site: str, why: str) -> None:
         self.inconclusives.append({"rule": rule, "site": site, "why": why})
 
